@@ -47,7 +47,7 @@ class St:
 
 class Tr:
     __slots__ = ('i', 'src', 'tgt', 'event', 'prio', 'guard', 'sends', 'pre', 'post', 'inv', 'bump',
-                 'tg_after', 'tg_idle', 'tobs', 'gform', 'tinv_idle')
+                 'tg_after', 'tg_idle', 'tobs', 'gform', 'tinv_idle', 'noact')
 
     def __init__(self, i, src, tgt, event, prio, guard):
         self.i = i
@@ -66,11 +66,12 @@ class Tr:
         self.tobs = False
         self.gform = False      # guard written in the event-free form P.g(i)
         self.tinv_idle = None   # argument of idle() in a transition invariant (set by C13 only)
+        self.noact = False      # the transition has no action at all (C08 only; it is then identified by its guard)
 
     def as_tuple(self):
         return (self.i, self.src, self.tgt, self.event, self.prio, self.guard, tuple(self.sends),
                 tuple(self.pre), tuple(self.post), tuple(self.inv), self.bump, self.tg_after, self.tg_idle, self.tobs, self.gform) + \
-            ((self.tinv_idle,) if self.tinv_idle is not None else ())
+            ((self.tinv_idle,) if self.tinv_idle is not None else ()) + (('noact',) if self.noact else ())
 
 
 class Spec:
@@ -192,6 +193,7 @@ class Cfg:
         self.time_obs = False     # code logs `time`; states carry time-aware invariants
         self.anon = False         # code also sends events without any distinguishing parameter (equal by value)
         self.echo = False         # some guards use the event-free form and their text doubles as entry/exit code of a state
+        self.noact = False        # some guarded transitions have no action (their contracts are checked all the same)
         self.payload = False      # some sent events carry the context's list w itself as a parameter
         self.neg_delays = False   # sends also use negative delays
         self.nested_names = False  # names from NESTED_POOL (drawn by swarm in one run out of six)
@@ -419,6 +421,11 @@ def decorate(sp, st, cfg, events):
                 s = sp.states[st.pick(sorted(sp.states))]
                 if s.echo is None:
                     s.echo = (st.pick(['entry', 'exit']), t.i)
+    if cfg.noact:
+        for t in sp.trans:
+            if t.guard and not t.sends and st.flag(1, 3):
+                t.noact = True
+                t.bump = False
     if cfg.brace:
         for t in sp.trans:
             if t.guard and not t.gform and t.tg_after is None and t.tg_idle is None and st.flag(1, 2):
@@ -490,6 +497,8 @@ def exit_code(s):
 
 
 def action_code(t):
+    if t.noact:
+        return None
     lines = ['P.act(%d, event)' % t.i]
     if t.tobs:
         lines.append('P.obs(%r, time)' % ('act:%d' % t.i))
@@ -546,9 +555,14 @@ def cond_code(j, kind, owner_is_transition, with_old, owner=None):
 _ACT = re.compile(r'P\.act\((\d+)')
 
 
+_GRD = re.compile(r'P\.(?:guard|tguard|g)\((\d+)')
+
+
 def tid(transition):
-    """index of a sismic Transition object produced from a spec"""
-    return int(_ACT.match(transition.action).group(1))
+    """index of a sismic Transition object produced from a spec (from its action, or from its guard if it has no action)"""
+    if transition.action:
+        return int(_ACT.match(transition.action).group(1))
+    return int(_GRD.match(transition.guard).group(1))
 
 
 # ----------------------------------------------------------------------------- materialisers
@@ -665,7 +679,8 @@ def to_dict(sp, order=None, name='gen'):
                 g = guard_code(t)
                 if g:
                     td['guard'] = g
-                td['action'] = action_code(t)
+                if action_code(t) is not None:
+                    td['action'] = action_code(t)
                 if t.prio != 0:
                     td['priority'] = {1: 'high', -1: 'low'}.get(t.prio, t.prio)
                 c = cond_list(t, True)
